@@ -48,8 +48,8 @@ def keyof(i):
 
 
 def bounds(tier):
-    return {'indices': [0, 1, 3] if tier == 'quick' else [0, 1, 3, 6], 'mapper_depth': 7 if tier == 'quick' else 9,
-            'manager_depth': 5 if tier == 'quick' else 6, 'typed_stores': 'fixpoint'}
+    return {'indices': [0, 1, 3] if tier == 'quick' else [0, 1, 3, 6], 'mapper_depth': 8 if tier == 'quick' else 10,
+            'manager_depth': 6 if tier == 'quick' else 7, 'typed_stores': 'fixpoint'}
 
 
 def units(tier):
@@ -57,10 +57,10 @@ def units(tier):
     out = []
     for t in TYPES:
         for dflt in (False, True):
-            out.append({'kind': 'typed', 'type': t, 'default': dflt, 'indices': idx, 'nvalues': 2 if tier == 'quick' else 3})
-    out.append({'kind': 'mapper', 'indices': [0, 3], 'depth': 7 if tier == 'quick' else 9})
-    out.append({'kind': 'mapper', 'indices': [1, 0], 'depth': 6 if tier == 'quick' else 8})
-    out.append({'kind': 'manager', 'depth': 5 if tier == 'quick' else 6})
+            out.append({'kind': 'typed', 'type': t, 'default': dflt, 'indices': idx, 'nvalues': 3})
+    out.append({'kind': 'mapper', 'indices': [0, 3], 'depth': 8 if tier == 'quick' else 10})
+    out.append({'kind': 'mapper', 'indices': [1, 0], 'depth': 7 if tier == 'quick' else 9})
+    out.append({'kind': 'manager', 'depth': 6 if tier == 'quick' else 7})
     return out
 
 
